@@ -164,7 +164,7 @@ def build_screen_case(rng, w):
             stream.append(('cmdaddr', [CMD_UPDATE], FB))
     if malformed:
         kind = rng.choice(['unknown', 'badbpp', 'zerosize', 'rectout', 'noinit_update', 'noinit_raw', 'truncated',
-                           'noinit_rect', 'far_address'])
+                           'noinit_rect', 'far_address', 'rect_huge', 'rect_huge', 'init_huge'])
         pos = rng.randrange(1, len(stream) + 1)
         if kind == 'unknown':
             stream.insert(pos, ('cmd', [rng.choice([0, 6, 7, 0x80, 0xFF])]))
@@ -174,6 +174,17 @@ def build_screen_case(rng, w):
             stream.insert(pos, ('cmd', [CMD_INIT, rng.choice([0, 2]), 0, 0, 0, 8, 0, 0]))
         elif kind == 'rectout':
             stream.insert(pos, ('cmdaddr', [CMD_RECT, sw, 0, 0, 0, 1, 0, 1, 0], FB))
+        elif kind == 'rect_huge':
+            # 16-bit fields with the top bit set (0x8000..0xFFFF): far outside any screen
+            flds = [0, 0, 1, 1]
+            flds[rng.randrange(4)] = rng.choice([0x8000, 0xFFFF, 0xFFFE, 0x8001, 0xC000])
+            payload = []
+            for v in flds:
+                payload += [v & 255, v >> 8]
+            stream.insert(pos, ('cmdaddr', [CMD_RECT] + payload, FB))
+        elif kind == 'init_huge':
+            # a huge but legal geometry followed by an update would read far past the segment: words read 0
+            stream.insert(pos, ('cmd', [CMD_INIT, 0, rng.choice([1, 0x80]), 1, 0, 8, 0, 0]))
         elif kind == 'noinit_update':
             stream.insert(0, ('cmdaddr', [CMD_UPDATE], FB))
         elif kind == 'noinit_rect':
